@@ -130,5 +130,16 @@ pub open spec fn text_width_spec(config: &Config, data: &LineNumbersData, side: 
 //@rewrite <<<let line_width = |side: PanelSide| {>>> => <<<let line_width = |side: PanelSide| -> (r: usize) ensures r == text_width_spec(config, data, side) {>>>
 //@rewrite <<<config.keep_plus_minus_markers as usize>>> => <<<(if config.keep_plus_minus_markers { 1usize } else { 0usize })>>>
 
+// ---- wrapping.rs wrap_zero_block: an unchanged line is wrapped ONCE for both panels - to the narrower of the two text widths
+pub open spec fn min_us(a: usize, b: usize) -> usize { if a <= b { a } else { b } }
+//@ region src/wrapping.rs wrap_zero_block
+//@sig pub fn wrap_zero_block_width_region(config: &Config, line_numbers_data: &Option<&mut LineNumbersData>) -> (r: usize)
+//@from <<<let line_width = if let Some(line_numbers_data) = line_numbers_data {>>>
+//@until <<<debug_assert_eq!(diff_style_sections.len(), 1);>>>
+//@tail line_width
+//@| ensures r == (match *line_numbers_data {
+//@|     Some(d) => min_us(text_width_spec(config, &*d, Left), text_width_spec(config, &*d, Right)),
+//@|     None => min_us(config.side_by_side_data.minus.width, config.side_by_side_data.plus.width) }),  // @C07:an.unchanged.line.is.wrapped.to.the.narrower.of.the.two.panels.text.widths.so.its.rows.fit.both
+
 } // verus!
 fn main() {}
